@@ -20,11 +20,16 @@ E(b) == Step(vm, WithLz(ctx, b))
 Matches(r, e) ==
   /\ e.status = "run" /\ r.stack = e.stack /\ r.alt = e.alt /\ r.vf = e.vf /\ r.ops = e.ops
   /\ (r.sep = e.sep \/ r.sep + 1 = e.sep)
+\* The property is about outcomes: where exactly the implementation notices a failure is its own business.  Once the
+\* reference has failed (at this opcode or earlier) further implementation steps are not constrained - what must
+\* hold is that the implementation fails too, which EndClauses checks.
 StepClauses(r) ==
-  IF vm.status # "run" \/ AtEnd(vm) THEN << <<"step-after-end-of-reference-run", FALSE>> >>
+  IF vm.status = "fail" THEN <<>>
+  ELSE IF vm.status # "run" \/ AtEnd(vm) THEN << <<"step-after-end-of-reference-run", FALSE>> >>
   ELSE LET eT == E(TRUE) eF == E(FALSE) IN
+  IF eT.status # "run" /\ eF.status # "run" THEN <<>>
+  ELSE
   << <<"step-opcode-position", r.pc = vm.pc /\ r.sop = vm.script[vm.pc + 1]>>,
-     <<"reference-fails-at-this-opcode", eT.status = "run" \/ eF.status = "run">>,
      <<"step-stack", r.stack = eT.stack \/ r.stack = eF.stack>>,
      <<"step-altstack", r.alt = eT.alt>>,
      <<"step-vfExec", r.vf = eT.vf>>,
@@ -34,6 +39,7 @@ StepClauses(r) ==
 NextPc(r) == LET o == ParseOp(vm.script, vm.pc) IN IF o.ok THEN o.next ELSE Len(vm.script)
 Resync(r) ==
   IF vm.status # "run" \/ AtEnd(vm) THEN vm
+  ELSE IF E(TRUE).status # "run" /\ E(FALSE).status # "run" THEN [vm EXCEPT !.status = "fail"]
   ELSE [script |-> vm.script, pc |-> NextPc(r), stack |-> r.stack, alt |-> r.alt, vf |-> r.vf, ops |-> r.ops,
         sep |-> IF r.sep = E(TRUE).sep \/ r.sep + 1 = E(TRUE).sep THEN E(TRUE).sep ELSE r.sep, status |-> "run"]
 LenientNote(r) ==
